@@ -84,6 +84,11 @@ def loop_inv(key, inv=None, decreases=None, mode="inv", types=None):
     RT.loop_specs[key] = LoopSpec(inv=inv, decreases=decreases, mode=mode, types=types)
 
 
+def loop_defs(key, defs, split=None):
+    """map-loop over an index domain: defs(v) -> {"self.nmat": lambda done: (lambda i, j: value)}"""
+    RT.loop_specs[key] = LoopSpec(mode="defs", defs=defs, split=split)
+
+
 class H:
     """per-path harness context"""
     def __init__(self, eng, prf):
